@@ -7,10 +7,10 @@ open Xp.IOx
 def dataOf (j : Json) (k : String) : Data := (arr j k).map fun x => (str x "k", str x "v")
 
 def ctrlOf : String → Ctrl
-  | "owner" => .owner | "xr" => .xr | "other" => .other | _ => .none
+  | "owner" => .owner | "xr" => .xr | "other" => .other | "xrPlain" => .xrPlain | _ => .none
 
 def ctrlStr : Ctrl → String
-  | .owner => "owner" | .xr => "xr" | .other => "other" | .none => "none"
+  | .owner => "owner" | .xr => "xr" | .other => "other" | .none => "none" | .xrPlain => "xrPlain"
 
 def slotOf (j : Json) : Slot :=
   if bool j "present" then some ⟨bool j "conn", ctrlOf (str j "ctrl"), dataOf j "data"⟩ else none
@@ -29,8 +29,22 @@ def iter (n : Nat) (f : Slot → Res) (slot : Slot) : List Res × Slot :=
   | 0 => ([], slot)
   | n + 1 => let r := f slot; let (rs, s') := iter n f r.slot; (r :: rs, s')
 
+def leakHandler : Handler := fun scn => do
+  let ctrl := ctrlOf (str scn "ctrl")
+  let sec := if bool scn "cdSecret" then some (dataOf scn "secret") else none
+  let rounds := nat scn "rounds"
+  let mut slot : Slot := none
+  let mut synced := false
+  for _ in List.range rounds do
+    let (r, s) := ptFlow ctrl sec (str scn "key") slot
+    slot := r.slot
+    synced := s
+  let ok := !(ctrl == .other) || slot.isNone
+  return (Json.mkObj [("xrSecret", slotJson slot), ("synced", .bool synced)], ok, if ok then "" else "C09:foreign-details-published")
+
 def handler : Handler := fun scn => do
   let op := str scn "op"
+  if op == "ptflow" then return ← leakHandler scn
   let rounds := nat scn "rounds"
   let dest := slotOf (obj scn "dest")
   let src := slotOf (obj scn "src")
